@@ -16,9 +16,11 @@ from . import tlc
 from .tlc import MachineryError  # noqa: F401  (re-export)
 
 VERIF = Path(__file__).resolve().parent.parent
-REPO = Path(os.environ.get("VERIF_REPO", "/repo")).resolve()
+REPO = Path(os.environ.get("VERIF_REPO") or "/repo").resolve()   # an empty VERIF_REPO means /repo
 # runs against a scratch tree (mutation testing of the machinery) never touch the committed evidence
-EVIDENCE = VERIF / "evidence" if str(REPO) == "/repo" else Path(tempfile.gettempdir()) / "verif_mutant_evidence"
+# evidence of runs against a scratch worktree (or of exploratory runs with VERIF_EVIDENCE_DIR set) never touches /verif/evidence
+EVIDENCE = (Path(os.environ["VERIF_EVIDENCE_DIR"]) if os.environ.get("VERIF_EVIDENCE_DIR")
+            else VERIF / "evidence" if str(REPO) == "/repo" else Path(tempfile.gettempdir()) / "verif_mutant_evidence")
 REPLAY = EVIDENCE / "replay"
 KNOWN = VERIF / "known_findings.json"
 PY = "/venv/bin/python"
